@@ -119,6 +119,17 @@ class C01:
             if r1[0].status == "OK":
                 S.run(["verify %s %s %s %s %s" % (suite, tb(pk), tb(r1[0].b(0)), hv, mv) for hv, mv in variants], expect="ok", label="none-vs-empty")
             stats["none_vs_empty_pairs"] += 6
+            # volume: many signatures over short inputs through the 80-byte round trip (a fault that depends on a pattern of the
+            # octets of A or e shows up only at some rate; 1200 signatures hit a 1-in-256 pattern with probability 0.99)
+            nb = 1200 if tier == "quick" else 6000
+            bl = ["sign %s %s %s %s %s" % (suite, tb(sk), tb(pk), tob(rb(rng, 4)), tl([rb(rng, 3)])) for _ in range(nb)]
+            rs = S.run(bl, expect="ok", label="triv:bulk-sign", model=False)
+            dl = ["dec sig %s" % tb(r_.b(0)) for r_ in rs if r_.status == "OK"]
+            rd = S.run(dl, expect="ok", label="bulk:from_bytes(to_bytes(sign))", model=False)
+            for l_, r_ in zip(dl, rd):
+                if r_.status == "OK" and r_.b(0) != bytes.fromhex(l_.split(" ")[2]):
+                    fail(S, "roundtrip", "from_bytes(to_bytes(signature)) re-encodes differently", [l_])
+            stats["bulk_roundtrips"] = stats.get("bulk_roundtrips", 0) + len(dl)
         return stats
 
 # ====================================================================================== C02
@@ -181,7 +192,8 @@ class C02:
                     lines.append("verify %s %s %s %s %s" % (base + (tob(f["header"]), tl(m2)))); labels.append("msgs:" + kind); cnt("msgs:" + kind)
                 # EVERY position is bound: a byte change at each index, and a swap of each pair of distinct neighbours
                 # (a summation that batches / chunks the terms may leave a tail or a boundary element out)
-                if len(f["msgs"]) >= 4 and not f.get("_pos_done"):
+                if len(f["msgs"]) >= 4 and (suite, len(f["msgs"])) not in stats.setdefault("_pos_done", set()):
+                    stats["_pos_done"].add((suite, len(f["msgs"])))
                     ms = f["msgs"]
                     for i in range(len(ms)):
                         m2 = list(ms); m2[i] = ms[i] + b"\x01"
@@ -212,6 +224,7 @@ class C02:
                     s2 = bytearray(f["sig"]); s2[bit // 8] ^= 1 << (bit % 8)
                     lines.append("verify %s %s %s %s %s" % (suite, tb(f["pk"]), tb(bytes(s2)), tob(f["header"]), tl(f["msgs"]))); labels.append("bitflip"); cnt("bitflip")
             S.run(lines, expect="err", label=labels)
+        stats.pop("_pos_done", None)
         return stats
 
 # ====================================================================================== C03
@@ -385,6 +398,13 @@ class C04:
                     add(pv_line(p, D=D + [D[-1]], dmsgs=dm + [dm[-1]]), "repeated-index-repeated-message")
                     if len(D) >= 2 and dm[0] != dm[1]:
                         add(pv_line(p, dmsgs=[dm[1], dm[0]] + dm[2:]), "swapped-disclosed")
+                    # the index list given in ANOTHER order (rotations, a 3-cycle needs three) with the messages rotated too: the
+                    # messages are read in ascending-position order, so every rotation of them is a false statement
+                    if len(D) >= 3 and len(set(dm)) == len(dm):
+                        for r_ in range(1, min(len(D), 4)):
+                            Dr = D[r_:] + D[:r_]
+                            for s_ in range(1, min(len(D), 4)):
+                                add(pv_line(p, D=Dr, dmsgs=dm[s_:] + dm[:s_]), "rotated-indexes-and-messages")
                 und = [i for i in range(L) if i not in D]
                 if und:
                     j = und[0]; D2 = sorted(D + [j])
@@ -403,6 +423,18 @@ class C04:
                 add(pv_line(p, proof=pr[:240] + pyc.sc(rng.randrange(pyc.R)) + pr[240:]), "insert-scalar")
                 # shifting L by an index beyond range
                 add(pv_line(p, D=D + [L + 5], dmsgs=dm + [b""]), "index-out-of-range")
+            # every FIELD of a proof replaced by the same field of a second proof for the same statement (fresh randomness):
+            # the challenge ties all of them together, no recombination of two honest proofs may verify
+            tp = proofs[: (4 if tier == "quick" else 24)]
+            second = honest_proofs(S, [(p, p["idx"], p["ph"]) for p in tp], label="triv:proofgen-second")
+            for p, p2 in zip(tp, second):
+                a, b = p["proof"], p2["proof"]
+                if len(a) != len(b) or a == b: continue
+                cuts = [0, 48, 96, 144] + list(range(176, len(a) + 1, 32))
+                for lo, hi in zip(cuts, cuts[1:]):
+                    add(pv_line(p, proof=a[:lo] + b[lo:hi] + a[hi:]), "field-transplant")
+                add(pv_line(p, proof=a[:144] + b[144:]), "field-transplant")           # all responses and the challenge
+                add(pv_line(p, proof=b[:144] + a[144:]), "field-transplant")           # all three points
             for p in rng.sample(proofs, min(nflip, len(proofs))):
                 stats["bitflip_proofs"] += 1
                 pr = p["proof"]
@@ -502,6 +534,11 @@ class C05:
             keys = make_keys(S, suite, 3)
             flows = blind_flows(S, suite, keys, shapes, label="blind")
             S.run([bv_line(f) for f in flows], expect="ok", label="verify_blind_sign(blind_sign)")
+            # a commitment to ZERO messages still carries the blinding factor: the committed list given as ABSENT (with the blind)
+            # and the signer messages given as absent when there are none must verify exactly like the empty lists
+            ab0 = [bv_line(f, cm=None) for f in flows if f["cm"] == [] and f.get("blind")]
+            ab0 += ["blindverify %s %s %s %s N %s %s" % (f["suite"], tb(f["pk"]), tb(f["sig"]), tob(f["header"]), tol(f["cm"]), tob(f.get("blind"))) for f in flows if not f["msgs"]]
+            if ab0: S.run(ab0, expect="ok", label="verify_blind_sign(absent lists)")
             tr = []
             for f in flows:
                 L = len(f["msgs"]); M = len(f["cm"] or [])
@@ -559,6 +596,13 @@ class C06:
                 add(bs(f, cwp[:80] + pyc.sc(rng.randrange(pyc.R)) + cwp[80:]), "commit-insert-scalar")
                 for n in (1, 7, 31): add(bs(f, cwp + bytes(n)), "commit-trailing-bytes")
                 for n in (1, 31, 33): add(bs(f, cwp[:-n]), "commit-truncate-bytes")
+                # every field of the commitment-with-proof replaced by the same field of a SECOND commitment to the same messages
+                if f["cm"] is not None and not f.get("_second_done"):
+                    r2 = S.run(["commit %s %s" % (f["suite"], tl(f["cm"]))], expect="ok", label="triv:commit-second")[0]
+                    if r2.status == "OK" and len(r2.b(0)) == len(cwp):
+                        b2_ = r2.b(0); cuts = [0, 48] + list(range(80, len(cwp) + 1, 32))
+                        for lo, hi in zip(cuts, cuts[1:]):
+                            if cwp[lo:hi] != b2_[lo:hi]: add(bs(f, cwp[:lo] + b2_[lo:hi] + cwp[hi:]), "commit-field-transplant")
                 # proof made for other committed messages, transplanted onto this commitment point
                 o = [g for g in flows if g is not f and len(g["cm"]) == len(f["cm"])]
                 for g in o[:1]:
@@ -589,9 +633,17 @@ class C06:
                 if D:
                     add(bpv_line(p, dmsgs=[dm[0] + b"\1"] + dm[1:]), "bpv:disclosed-msg")
                     add(bpv_line(p, D=D[1:], dmsgs=dm[1:]), "bpv:dropped-disclosed")
+                    # a repeated disclosed index carrying one more, never-signed message (after, and in front of, the genuine one)
+                    forged = b"role: admin" + rb(rng, 2)
+                    add(bpv_line(p, D=D + [D[-1]], dmsgs=dm + [forged]), "bpv:repeated-index-extra-message")
+                    add(bpv_line(p, D=D + [D[0]], dmsgs=dm + [forged]), "bpv:repeated-index-extra-message")
+                    add(bpv_line(p, D=[D[0]] + D, dmsgs=[forged] + dm), "bpv:repeated-index-extra-message")
                 if Dc:
                     add(bpv_line(p, dcmsgs=[dcm[0] + b"\1"] + dcm[1:]), "bpv:disclosed-committed-msg")
                     add(bpv_line(p, Dc=Dc[1:], dcmsgs=dcm[1:]), "bpv:dropped-committed")
+                    forged = b"never committed" + rb(rng, 2)
+                    add(bpv_line(p, Dc=Dc + [Dc[-1]], dcmsgs=dcm + [forged]), "bpv:repeated-committed-index-extra-message")
+                    add(bpv_line(p, Dc=[Dc[0]] + Dc, dcmsgs=[forged] + dcm), "bpv:repeated-committed-index-extra-message")
                 for dl in (1, -1, 2, 1000, 2**63, 2**64 - 1 - L):
                     if L + dl >= 0: add(bpv_line(p, Lv=L + dl), "bpv:L")
                 if L > 0: add(bpv_line(p, Lv=None), "bpv:L-absent")
